@@ -111,7 +111,7 @@ thread_local! {
     static TEMPLATE: RefCell<Option<Vec<(u16, Vec<u8>)>>> = const { RefCell::new(None) };
 }
 
-fn template() -> Vec<(u16, Vec<u8>)> {
+pub(super) fn template() -> Vec<(u16, Vec<u8>)> {
     TEMPLATE.with(|t| {
         if t.borrow().is_none() {
             let kvc = RefCell::new(MemKv::default());
